@@ -13,6 +13,9 @@ CONSTANTS
   CraftToks = {}
   MaxPresent = 2
   Calls = {"exchange", "client", "disconnect", "deliver"}
+  HealRounds = 0
+  HealDt = 250
+  Bound = 0
   PropsOn <- P_HS
   Export = TRUE
   ExportAll = FALSE
